@@ -10,14 +10,18 @@ SECTOR = 256
 
 
 def tag_sector(img_id, side, lba, rng_seed=0):
-    """256 bytes: 16 blocks of [E7 img side lba_hi lba_lo k] + 10 filler bytes."""
-    from ..prng import hash64
-    out = bytearray()
+    """256 bytes: 16 blocks of [E7 img side lba_hi lba_lo k] + 10 filler bytes.
+    The filler is SHAKE-128 of the identity (a standard function, so stable across
+    Python versions, and computed at C speed)."""
+    import hashlib
+    fill = hashlib.shake_128(b'verif-sector:%d:%d:%d:%d' % (rng_seed, img_id, side, lba)).digest(160)
+    out = bytearray(256)
+    hdr = bytes([0xE7, img_id & 0xFF, side & 0xFF, (lba >> 8) & 0xFF, lba & 0xFF])
     for k in range(16):
-        h1 = hash64(rng_seed, img_id, side, lba, k)
-        h2 = hash64(h1, 1)
-        fill = (h1.to_bytes(8, 'little') + h2.to_bytes(8, 'little'))[:10]
-        out += bytes([0xE7, img_id & 0xFF, side & 0xFF, (lba >> 8) & 0xFF, lba & 0xFF, k]) + fill
+        o = 16 * k
+        out[o:o + 5] = hdr
+        out[o + 5] = k
+        out[o + 6:o + 16] = fill[10 * k:10 * k + 10]
     return bytes(out)
 
 
